@@ -4,6 +4,9 @@ comparison mask e p m r v c w), non-triviality rule, extra trusted base."""
 def parse_run(profile, mask, nq, nt, extra=None):
     return dict(kind="parse", profile=profile, mask=mask, n_quick=nq, n_thorough=nt, extra=extra or [])
 
+def dispatch_run(profile, mask, dmask, nq, nt, extra=None):
+    return dict(kind="dispatch", profile=profile, mask=mask, dmask=dmask, n_quick=nq, n_thorough=nt, extra=extra or [])
+
 def tok_run(nq_rand, nt_rand, lq=3, lt=5):
     return dict(kind="tok", profile="tok", mask="1111111", n_quick=nq_rand, n_thorough=nt_rand, shards=1,
                 extra=["-len", str(lq)], extra_thorough=["-len", str(lt)])
@@ -43,6 +46,17 @@ PROPS = {
     "C08": dict(
         runs=[parse_run("unknown", "1101001", 5000, 200000), parse_run("bundle", "1101001", 2000, 100000)],
         rule="unknown long/short/bundled options with and without attached values planted before/after command tokens and in wrapper commands, 3 unknown modes x 3 single-dash modes; non-trivial = an unknown option was reported, warned about or passed through",
+    ),
+    "C10": dict(
+        runs=[dispatch_run("dispatch", "1001110", "111000", 4000, 200000)],
+        coq_sample=8,
+        rule="command trees of depth <= 3 with inherited options, UnsetOptions wrappers and commands without function; Parse then Dispatch with instrumented functions; non-trivial = the tree has commands and exactly one function ran",
+        assumptions=["'exactly one function exactly once' is by the result type in the model; on the real library the harness counts invocations and checks the context value"],
+    ),
+    "C11": dict(
+        runs=[dispatch_run("dispatch", "1100000", "100110", 4000, 200000)],
+        coq_sample=8,
+        rule="trees with required options (own/inherited, with/without custom message) and help option/command at every level; non-trivial = a required option was missing or help was requested",
     ),
     "C09": dict(
         runs=[parse_run("order", "0001110", 4000, 200000)],
